@@ -43,8 +43,8 @@ CLAIMED = {
             'ignoring_simulates_checking(_run): for every evaluator whose guards and code are blind to a relation eqv (for PythonEvaluator: equal up to the frozen '
             '__old__ contexts) and every run in which no condition fails or errs, the run ignoring contracts returns the same macro steps and reaches states with '
             'equal configuration, memory, queues, times, sent events, outside world, eqv-related contexts and the same log minus the condition evaluations; '
-            'no_evaluation_when_ignored, no_contract_error_when_ignored, log_differs_only_by_evaluations for all outcomes. The blindness hypothesis is about the '
-            'evaluator, which is modelled (Py.lean) and tied: the tie runs every history under both settings. ' + TIE, '§6 C09'),
+            'python_evaluator_transparent (the blindness hypothesis is proved for the modelled PythonEvaluator); no_evaluation_when_ignored, '
+            'no_contract_error_when_ignored, log_differs_only_by_evaluations for all outcomes. The tie runs every history under both settings. ' + TIE, '§6 C09'),
     'C10': ('Lean 4 proof: meta-event stream derived from the exact log; fail-fast via error-origin theorem + correspondence with real property statecharts',
             'meta_stream / meta_stream_none (documented meta-events in the order things happened), property_failure_is_immediate, '
             'listeners_see_step_time. ' + TIE, '§6 C10'),
